@@ -1346,7 +1346,8 @@ def search_scalar_range(S, plan, quick):
                     S.fail("encoding-bytes:%s" % label.split("/")[0], {"curve": c.name, "key": kind, "encoding": label, "got": enc},
                            "the fixed-width scalar is not contained in the encoding")
                     continue
-                idx = range(bl) if (not quick or (k == n - 1 and label == "privstring")) else sorted({0, 1, bl - 2, bl - 1})
+                full = k == n - 1 and (label == "privstring" or (not quick and label.endswith("uncompressed/named_curve")))
+                idx = range(bl) if full else sorted({0, 1, bl - 2, bl - 1})
                 for i in idx:
                     for name, v in (("xor01", raw[i] ^ 1), ("xor80", raw[i] ^ 0x80), ("set00", 0), ("setFF", 0xFF)):
                         if v != raw[i]:
